@@ -243,7 +243,7 @@ func run(pc *propCfg, id, tier string, seed uint64, budget, nw int, replayFile, 
 			// the code under test corrupted memory badly enough to kill the
 			// process: for a memory-ownership property that is the violation
 			h := sha256.Sum256(b)
-			path := filepath.Join(verifDir, "replays", fmt.Sprintf("%s-crash-%s.json", id, hex.EncodeToString(h[:5])))
+			path := filepath.Join(outDir("replays"), fmt.Sprintf("%s-crash-%s.json", id, hex.EncodeToString(h[:5])))
 			_ = os.MkdirAll(filepath.Dir(path), 0o755)
 			_ = os.WriteFile(path, b, 0o644)
 			fmt.Printf("VIOLATION property=%s replay=%s\n  key=%s/fatal-crash the worker process died (%s) while executing the plan in the replay file\n", id, path, id, firstLine(e.Error()))
@@ -320,7 +320,7 @@ func run(pc *propCfg, id, tier string, seed uint64, budget, nw int, replayFile, 
 		}
 		nViol++
 		h := sha256.Sum256([]byte(v.Engine + "|" + v.Variant + "|" + v.Key))
-		path := filepath.Join(verifDir, "replays", fmt.Sprintf("%s-%s.json", id, hex.EncodeToString(h[:5])))
+		path := filepath.Join(outDir("replays"), fmt.Sprintf("%s-%s.json", id, hex.EncodeToString(h[:5])))
 		b, _ := json.MarshalIndent(v, "", " ")
 		_ = os.MkdirAll(filepath.Dir(path), 0o755)
 		if err := os.WriteFile(path, b, 0o644); err != nil {
@@ -461,6 +461,18 @@ func doReplay(pc *propCfg, id string, b build, file, scratch string) int {
 	return 0
 }
 
+// outDir is where evidence and replay files go: the verification tree itself,
+// except when the check is pointed at another tree than /repo (sensitivity
+// runs against scratch worktrees must not overwrite the real evidence).
+func outDir(sub string) string {
+	if repoDir != "/repo" {
+		d := filepath.Join(os.TempDir(), "verif-alt-tree", sub)
+		_ = os.MkdirAll(d, 0o755)
+		return d
+	}
+	return filepath.Join(verifDir, sub)
+}
+
 func writeEvidence(pc *propCfg, id, tier string, seed uint64, agg *runner.Result, distinct int, byVariant map[string]int, nViol int, known []string, wall float64, budget, jobs int) {
 	cov := map[string]any{
 		"evaluations":         agg.Runs,
@@ -502,7 +514,7 @@ func writeEvidence(pc *propCfg, id, tier string, seed uint64, agg *runner.Result
 		"violations":  nViol,
 	}
 	b, _ := json.MarshalIndent(ev, "", " ")
-	path := filepath.Join(verifDir, "evidence", id+".json")
+	path := filepath.Join(outDir("evidence"), id+".json")
 	_ = os.MkdirAll(filepath.Dir(path), 0o755)
 	if err := os.WriteFile(path, b, 0o644); err != nil {
 		fatal2("write evidence: %v", err)
